@@ -937,6 +937,59 @@ fn main() {
             let _c = Span::enter_with_parent("child", &root);
             extra = json!({"ids_generated_on_one_thread": n, "xor": x});
         }
+        "tls-cancel-in-destructor-cancelable" => {
+            // a root is cancelled and dropped inside a user thread-local destructor, in every order
+            // of initialisation of the user's and the library's thread-locals: whatever still gets
+            // through at that point, nothing of a cancelled trace may be delivered
+            struct Holder(std::cell::RefCell<Option<Span>>);
+            impl Drop for Holder {
+                fn drop(&mut self) {
+                    if let Some(root) = self.0.borrow_mut().take() {
+                        root.cancel();
+                        drop(root);
+                    }
+                }
+            }
+            thread_local! { static HOLD: Holder = const { Holder(std::cell::RefCell::new(None)) }; }
+            let rep = install(true);
+            let mut n = 0u128;
+            for order in 0..3 {
+                for _ in 0..4 {
+                    n += 1;
+                    let tid = 0xabc0_0000 + n;
+                    std::thread::spawn(move || {
+                        if order == 0 {
+                            // the user's thread-local first: its destructor runs after the library's
+                            HOLD.with(|h| drop(h.0.borrow()));
+                        }
+                        let root = Span::root("teardown-root", SpanContext::new(TraceId(tid), SpanId(1)));
+                        {
+                            let c1 = Span::enter_with_parent("step-1", &root);
+                            let _g = c1.set_local_parent();
+                            let _l = LocalSpan::enter_with_local_parent("step-1-local");
+                        }
+                        if order == 2 {
+                            // no flush: everything of the trace is still in this thread's queue
+                        } else {
+                            fastrace::flush();
+                        }
+                        let c2 = Span::enter_with_parent("step-2", &root);
+                        drop(c2);
+                        HOLD.with(|h| *h.0.borrow_mut() = Some(root));
+                    })
+                    .join()
+                    .unwrap();
+                    fastrace::flush();
+                    fastrace::flush();
+                }
+            }
+            let recs = rep.0.lock().unwrap();
+            let leaked: Vec<String> = recs.iter().filter(|r| r.trace_id.0 > 0xabc0_0000 && r.trace_id.0 <= 0xabc0_0000 + n).map(|r| format!("{}@{:x}", r.name, r.trace_id.0)).collect();
+            extra = json!({"threads": n as u64, "records_of_cancelled_traces": leaked.len()});
+            if !leaked.is_empty() {
+                panic!("records of traces whose root was cancelled (inside a thread-local destructor) were delivered: {:?}", &leaked[..leaked.len().min(6)]);
+            }
+        }
         "deep-backlog" => {
             // more finish signals parked in one episode than the ring has slots (10240): they must
             // all get through once the collector runs again, and later traces must be complete
